@@ -22,6 +22,8 @@ pub struct RunResult {
     pub stderr: String,
     pub wall: Duration,
     pub timed_out: bool,
+    /// the process itself (children excluded) burnt more CPU time than `cpu_limit_secs()` and was killed
+    pub cpu_bound: bool,
 }
 
 impl RunResult {
@@ -63,7 +65,7 @@ pub fn run_cmd(mut cmd: Command, timeout: Duration) -> RunResult {
     let mut child = match cmd.spawn() {
         Ok(c) => c,
         Err(e) => {
-            return RunResult { code: None, signal: false, stdout: String::new(), stderr: format!("spawn failed: {e}"), wall: start.elapsed(), timed_out: false };
+            return RunResult { code: None, signal: false, stdout: String::new(), stderr: format!("spawn failed: {e}"), wall: start.elapsed(), timed_out: false, cpu_bound: false };
         }
     };
     let mut so = child.stdout.take().unwrap();
@@ -79,11 +81,30 @@ pub fn run_cmd(mut cmd: Command, timeout: Duration) -> RunResult {
         s
     });
     let mut timed_out = false;
+    let mut cpu_bound = false;
+    let mut last_cpu_probe = Instant::now();
+    let own_cpu = |pid: u32| -> f64 {
+        // utime + stime of the process itself, in seconds (fields 14 and 15 of /proc/<pid>/stat, 100 ticks per second)
+        let Ok(text) = std::fs::read_to_string(format!("/proc/{pid}/stat")) else { return 0.0 };
+        let Some(rest) = text.rsplit(')').next() else { return 0.0 };
+        let f: Vec<&str> = rest.split_whitespace().collect();
+        let t = |i: usize| f.get(i).and_then(|x| x.parse::<f64>().ok()).unwrap_or(0.0);
+        (t(11) + t(12)) / 100.0
+    };
     let status = loop {
         match child.try_wait() {
             Ok(Some(st)) => break Some(st),
             Ok(None) => {
-                if start.elapsed() > timeout {
+                if last_cpu_probe.elapsed() > Duration::from_secs(2) {
+                    last_cpu_probe = Instant::now();
+                    if own_cpu(child.id()) > cpu_limit_secs() as f64 {
+                        cpu_bound = true;
+                    }
+                }
+                if start.elapsed() > timeout || cpu_bound {
+                    if !cpu_bound && own_cpu(child.id()) > cpu_limit_secs() as f64 {
+                        cpu_bound = true;
+                    }
                     let _ = child.kill();
                     timed_out = true;
                     break child.wait().ok();
@@ -96,7 +117,7 @@ pub fn run_cmd(mut cmd: Command, timeout: Duration) -> RunResult {
     let stdout = t1.join().unwrap_or_default();
     let stderr = t2.join().unwrap_or_default();
     let code = status.and_then(|s| s.code());
-    RunResult { code, signal: status.map(|s| s.code().is_none()).unwrap_or(true) && !timed_out, stdout, stderr, wall: start.elapsed(), timed_out }
+    RunResult { code, signal: status.map(|s| s.code().is_none()).unwrap_or(true) && !timed_out, stdout, stderr, wall: start.elapsed(), timed_out, cpu_bound }
 }
 
 pub struct Lane {
@@ -251,7 +272,7 @@ impl Lane {
         for (k, v) in env {
             cmd.env(k, v);
         }
-        run_cmd(cmd, Duration::from_secs(400))
+        run_cmd(cmd, Duration::from_secs(watchdog_secs()))
     }
 
     pub fn build_driver(&self) -> RunResult {
@@ -312,4 +333,16 @@ impl Lane {
         let _ = child.wait();
         Ok((banner, out))
     }
+}
+
+/// Wall-clock limit for one compiler run (seconds): 400 by default, `PX_WATCHDOG` overrides it.
+pub fn watchdog_secs() -> u64 {
+    std::env::var("PX_WATCHDOG").ok().and_then(|v| v.parse().ok()).unwrap_or(400)
+}
+
+/// CPU-time budget of one process (its own user+system time, children excluded), seconds: 90 by
+/// default (`PX_CPU_LIMIT` overrides). A warm compiler run burns 1-5 s itself; this limit does not
+/// depend on how loaded the machine is.
+pub fn cpu_limit_secs() -> u64 {
+    std::env::var("PX_CPU_LIMIT").ok().and_then(|v| v.parse().ok()).unwrap_or(90)
 }
